@@ -91,7 +91,7 @@ def isolation_clauses(ctx, table):
     ctx.check('a decoded message depends only on the bytes within its declared length', same)
 
 
-def h_controller(ctx, n):
+def h_controller(ctx, n, shape=None):
   core = env.get_core()
   import socket as realsocket
   of01 = ctx.pox('pox.openflow.of_01')
@@ -113,9 +113,22 @@ def h_controller(ctx, n):
   flag = []
   delivered = {id(conA): [], id(conB): []}
   for c in cons:
+    if shape == 'handshake' and c is conA: continue          # connection A keeps its real (handshake) handlers
     c.handlers = [(lambda con, msg, t=t: delivered[id(con)].append((t, _repack(msg)))) for t in range(len(c.handlers))]
   conA.unpackers = Counting(conA.unpackers, n // 8 + 2, flag)
-  data = ctx.bytes('data', n)
+  if shape == 'handshake':
+    # well-framed handshake traffic whose last message answers the controller's barrier with a *symbolic* xid (right or wrong): hello,
+    # features reply, barrier reply
+    of01.time = env.Clock(100)
+    ofp = ctx.pox('pox.openflow')
+    core.components['openflow'] = ofp.OpenFlowNexus()
+    core.components['OpenFlowConnectionArbiter'] = ofp.OpenFlowConnectionArbiter(default=False)
+    fr = of.ofp_features_reply(datapath_id=9, xid=5); fr.ports.append(of.ofp_phy_port(port_no=1, name='p1'))
+    data = env.tobytes(ctx, list(of.ofp_hello().pack()) + list(fr.pack()) + [1, 19, 0, 8] + list(ctx.bytes('barrier_xid', 4)))
+    n = len(data)
+    conA.unpackers.budget = 8
+  else:
+    data = ctx.bytes('data', n)
   b1 = echo_bytes(0x11111111, b'ab'); b2 = echo_bytes(0x22222222)
   alive = True
   try:
@@ -136,6 +149,11 @@ def h_controller(ctx, n):
   ctx.check('sibling connection receives its messages unchanged', delivered[id(conB)] == [(2, b1), (2, b2)])
   ctx.check('sibling connection stays open', alive and conB in sel._args[0] and not socks[1].closed)
   if alive:
+    # whatever the loop still selects on is a usable descriptor (a closed socket left in the set makes the next select() fail for everybody)
+    ctx.check('no closed connection is left in the select set', all(c is listener or not (c.sock.closed if hasattr(c, 'sock') else False) for c in sel._args[0]))
+  if alive and shape == 'handshake':
+    ctx.witness('kept-open' if conA in sel._args[0] else 'closed')
+  elif alive:
     if conA in sel._args[0]:
       ctx.witness('kept-open')
       # whatever was delivered came from whole declared frames, in order, and the residue is an incomplete frame
@@ -264,7 +282,7 @@ def obligations(tier):
                       placement="between two valid echo requests on a sibling connection",
                       big_message="switch side: one 65535-byte buffer, version 1, six types, symbolic xid, declared length 0xffe0..0xffff, zero body")
   return [
-    Obligation('O1_controller', h_controller, [dict(n=k) for k in ns_c], witnesses=('kept-open', 'closed'), max_decisions=20000, conc_cap=300,
+    Obligation('O1_controller', h_controller, [dict(n=k) for k in ns_c] + [dict(n=0, shape='handshake')], witnesses=('kept-open', 'closed'), max_decisions=20000, conc_cap=300,
                desc='controller I/O loop: N unconstrained bytes on one connection; termination, containment, sibling delivery'),
     Obligation('O2_switch', h_switch, [dict(n=k) for k in ns_s] + [dict(n=k, real_switch=True) for k in (8, 12)] + [dict(n=20, shape='packet_out'), dict(n=79, shape='flow_mod')] + [dict(n=65535, big=True), dict(n=65535, big=True, real_switch=True)], witnesses=('kept-open', 'closed', 'later-segment-on-closed', 'later-segment-on-served'), max_decisions=20000,
                desc='switch I/O loop + OFConnection.read: N unconstrained bytes; termination, containment, sibling delivery, no stuck frame'),
